@@ -197,6 +197,9 @@ func (p *redisProc) handleRequest(req *rawRequest) {
 	hdlr, ok := p.findHandler(cmd)
 	if !ok {
 		// unsupported command
+		// NOTE: the command name is given by the client, a CR or LF in it
+		// would split the error reply into several replies.
+		cmd = strings.NewReplacer("\r", " ", "\n", " ").Replace(cmd)
 		req.SetResponse(newError(fmt.Sprintf("ERR unsupported command '%s'", cmd)))
 		return
 	}
